@@ -1,4 +1,5 @@
 mod stress;
+mod facts;
 mod area_builder;
 mod area_green;
 mod area_red;
@@ -70,6 +71,10 @@ fn main() {
             } else {
                 conc::run_conc(what, seed, &tier, &out);
             }
+        }
+        Some("facts") => {
+            let out = arg(&args, "--out").expect("--out FILE");
+            facts::observe(&out);
         }
         Some("leakcheck") => {
             // run the session three times; after a warm-up the live byte count must not move
